@@ -44,7 +44,7 @@ static void fault(const char *name, struct bw *w, int cls)
 	snprintf(d, sizeof d, "fault{%s}", name);
 	candidate(d, ISAL_DEFLATE, w->buf, bw_bytes(w), cls, 0, 0);
 	/* also behind a valid stored block and inside gzip framing (class must survive the wrapper) */
-	uint8_t tmp[600], x[4] = { 'p', 'r', 'e', '!' };
+	uint8_t tmp[3000], x[4] = { 'p', 'r', 'e', '!' };
 	struct bw w2;
 	bw_init(&w2, tmp, sizeof tmp);
 	gen_stored(&w2, 0, x, 4, 0);
@@ -132,6 +132,74 @@ static void grammar_faults(void)
 		char nm[80];
 		snprintf(nm, sizeof nm, "distance %d with %d bytes produced", have + 1, have);
 		fault(nm, &w, RC_LOOKBACK);
+	}
+	/* ---- the same token-level faults where the decoders' FAST paths see them: enough input behind the fault (the assembly
+	 * main loop only runs while > 8 input bytes and >= 274 output bytes remain) and enough output produced before it.
+	 * pre literals before, post literals after the faulty token; fixed and dynamic blocks ---- */
+	{
+		static const int pres[] = { 0, 1, 3, 40, 300 }, posts[] = { 0, 40 }, mlens[] = { 3, 10, 258 };
+		uint8_t big[2400];
+		for (int dyn = 0; dyn < 2; dyn++)
+			for (unsigned pi = 0; pi < 5; pi++)
+				for (unsigned qi = 0; qi < 2; qi++) {
+					int pre = pres[pi], post = posts[qi];
+					uint8_t l2[288], d2[32];
+					uint16_t lc2[288], dc2[32];
+					if (dyn) {
+						memset(l2, 0, sizeof l2); memset(d2, 0, sizeof d2);
+						/* complete codes: literals 'a','b' (2 bits), EOB (3), lengths 257 (3), 264 (4), 285 (4); distances 0..7 (3 bits) */
+						l2['a'] = 2; l2['b'] = 2; l2[256] = 3; l2[257] = 3; l2[264] = 3; l2[285] = 3;
+						for (int i = 0; i < 8; i++) d2[i] = 3;
+						gen_canon(l2, 288, lc2); gen_canon(d2, 32, dc2);
+					} else
+						gen_fixed_codes(l2, lc2, d2, dc2);
+					/* look-back sweep: distance exceeds the bytes produced by e = 1 .. len+1 */
+					for (unsigned mi = 0; mi < 3; mi++)
+						for (int e = 1; e <= mlens[mi] + 1; e += (e < 4 || e >= mlens[mi] - 1) ? 1 : (mlens[mi] / 4 + 1)) {
+							int len = mlens[mi], dist = pre + e;
+							int ls = gen_len_sym(len), ds = gen_dist_sym(dist);
+							if (dist > 32768 || (dyn && (ds > 7 || !l2[257 + ls])))
+								continue;
+							bw_init(&w, big, sizeof big);
+							if (dyn) gen_dyn_header(&w, 1, l2, 286, d2, 8, 0, 0); else gen_block_hdr(&w, 1, 1);
+							for (int i = 0; i < pre; i++) bw_code(&w, lc2['a'], l2['a']);
+							bw_code(&w, lc2[257 + ls], l2[257 + ls]); bw_bits(&w, len - g_len_base[ls], g_len_extra[ls]);
+							bw_code(&w, dc2[ds], d2[ds]); bw_bits(&w, dist - g_dist_base[ds], g_dist_extra[ds]);
+							for (int i = 0; i < post; i++) bw_code(&w, lc2['b'], l2['b']);
+							bw_code(&w, lc2[256], l2[256]);
+							bw_bits(&w, 0x5555, 16);
+							for (int i = 0; i < (post ? 12 : 0); i++) bw_byte(&w, 0x55); /* trailing bytes keep the fast loop active */
+							char nm[120];
+							snprintf(nm, sizeof nm, "%s block: match len %d at distance %d with %d bytes produced, %d literals after", dyn ? "dynamic" : "fixed", len, dist, pre, post);
+							fault(nm, &w, RC_LOOKBACK);
+						}
+					/* undefined symbols after a long prefix */
+					if (!dyn) {
+						for (int sym = 286; sym <= 287; sym++) {
+							bw_init(&w, big, sizeof big); gen_block_hdr(&w, 1, 1);
+							for (int i = 0; i < pre; i++) bw_code(&w, lc2['a'], l2['a']);
+							bw_code(&w, lc2[sym], l2[sym]); bw_bits(&w, 0, 5);
+							for (int i = 0; i < post; i++) bw_code(&w, lc2['b'], l2['b']);
+							bw_code(&w, lc2[256], l2[256]);
+							for (int i = 0; i < 12; i++) bw_byte(&w, 0x55);
+							char nm[120];
+							snprintf(nm, sizeof nm, "fixed block: symbol %d after %d literals, %d literals after", sym, pre, post);
+							fault(nm, &w, RC_SYMBOL);
+						}
+						if (pre >= 3)
+							for (int dsym = 30; dsym <= 31; dsym++) {
+								bw_init(&w, big, sizeof big); gen_block_hdr(&w, 1, 1);
+								for (int i = 0; i < pre; i++) bw_code(&w, lc2['a'], l2['a']);
+								bw_code(&w, lc2[257], l2[257]); bw_code(&w, dc2[dsym], 5);
+								for (int i = 0; i < post; i++) bw_code(&w, lc2['b'], l2['b']);
+								bw_code(&w, lc2[256], l2[256]);
+								for (int i = 0; i < 12; i++) bw_byte(&w, 0x55);
+								char nm[120];
+								snprintf(nm, sizeof nm, "fixed block: distance symbol %d after %d literals, %d literals after", dsym, pre, post);
+								fault(nm, &w, RC_SYMBOL);
+							}
+					}
+				}
 	}
 	/* repeat code 16 with no previous length; repeats past HLIT+HDIST; missing end-of-block code: any error satisfies the property */
 	bw_init(&w, buf, sizeof buf);
